@@ -195,6 +195,38 @@ def gen_stress(ctx, k):
     sc.add('endpar', 'quiesce', 'stop')
     return sc.text(), {'mode': 'stress', 'threads': nt, 'calls': 0}
 
+def gen_stoprace(ctx, k):
+    """bidib_stop against a library thread parked at its k-th scheduling point (directed preemption): the auto-flush thread in front of / inside
+    its flush, the receiver inside the processing of a packet. bidib_stop runs up to the join (or up to a lock the parked thread holds), the
+    parked thread then finishes: it has to leave holding nothing, and the next session has to work."""
+    rng = ctx.sub_rng('c11r', k)
+    cfg = cfggen.gen_config(rng, nboards=rng.randrange(1, 4), with_initial=False)
+    if not any(cfggen.is_track_output(b) for b in cfg['boards']):
+        cfg['boards'][0]['uid'] = bytes([cfg['boards'][0]['uid'][0] | 0x10]) + cfg['boards'][0]['uid'][1:]
+    nodes = cfggen.assign_tree(rng, cfg, absent_prob=0.0)
+    m = statemodel.Model(cfg, nodes)
+    d = cfggen.write_config(cfg, cfg_dir(f'c11r_{k}'))
+    target = 'af' if k % 3 != 2 else 'recv'
+    point = 1 + (k // 3) % 12
+    sc = Scn(seed=ctx.seed * 113 + k, watchdog=120000)
+    sc.add(*cfggen.bus_lines(cfg, nodes), 'bus brackets 0', f'start {d} {rng.choice([1, 2, 5, 50])}', 'quiesce')
+    for i in range(rng.randrange(0, 4)):
+        line, _h = gen_command(rng, m, cfg)
+        if line:
+            sc.add(line)
+    sc.add(f'mark c0', f'pause {target} {point}' + (' fn' if k % 2 and target == 'recv' else ''))
+    if target == 'recv':
+        for i in range(rng.randrange(1, 4)):
+            ad, t, data = gen_feedback(rng, m, cfg, nodes)
+            sc.add(up(model.build_msg(ad, 0, t, data)))
+    sc.add('waitpaused 2000', 'stop', 'release')
+    sc.add(f'start {d} 0', 'quiesce')
+    line, _h = gen_command(rng, m, cfg)
+    if line:
+        sc.add(line)
+    sc.add('flush', 'quiesce', 'stop')
+    return sc.text(), {'mode': 'stoprace', 'target': target, 'point': point, 'calls': 0}
+
 def find_cycle(edges):
     """edges: set of (a, b). returns a cycle as list or None"""
     adj = {}
@@ -239,6 +271,8 @@ def run(ctx):
         jobs.append(('mon' if k % 2 else 'asan',) + gen_fieldsweep(ctx, k))
     for k in range(ctx.n(30, 1500)):
         jobs.append(('mon' if k % 2 else 'asan',) + gen_stress(ctx, k))
+    for k in range(ctx.n(48, 1200)):
+        jobs.append(('mon' if k % 4 == 3 else 'asan',) + gen_stoprace(ctx, k))
     union = {}
     union_all = {}
     calls = 0
@@ -255,6 +289,12 @@ def run(ctx):
             oc = runner.outcome(r)
             if oc != 'ok':
                 continue
+            if meta['mode'] == 'stoprace':
+                for e in r.events:
+                    if e.get('e') == 'paused':
+                        ctx.add_set('stoprace_pause_sites', (meta['target'], e.get('kind'), e.get('at'), e.get('held')))
+                    elif e.get('e') == 'resumed':
+                        ctx.count('stoprace_resumed_' + e.get('why', '?'))
             calls += sum(1 for e in r.events if e.get('e') == 'ret')
             ctx.count('fieldsweep_messages', meta.get('messages', 0))
             ed = next((e for e in r.events if e.get('e') == 'edges'), None)
